@@ -111,9 +111,10 @@ OptimizeJudge(e) ==
       h == e.hints.opt
       truth == OptTruth(e.rows, obj, e.names, h)
       rn == IF e.max THEN e.rn ELSE -e.rn IN
-  IF e.ans \notin {"value", "none", "ValueError"} THEN <<"violation", "exception:" \o e.ans>>
+  \* IncompatibleArgsError is a ValueError (a subclass): a documented refusal, and like ValueError the right answer only when nothing satisfies the contract
+  IF e.ans \notin {"value", "none", "ValueError", "IncompatibleArgsError"} THEN <<"violation", "exception:" \o e.ans>>
   ELSE IF truth = "open" THEN <<"unjudged", "no-certificate">>
-  ELSE IF truth = "infeasible" THEN (IF e.ans = "ValueError" THEN <<"ok", "infeasible">> ELSE <<"violation", "infeasible-answered-" \o e.ans>>)
+  ELSE IF truth = "infeasible" THEN (IF e.ans \in {"ValueError", "IncompatibleArgsError"} THEN <<"ok", "infeasible">> ELSE <<"violation", "infeasible-answered-" \o e.ans>>)
   ELSE IF truth = "unbounded" THEN (IF e.ans = "none" THEN <<"ok", "unbounded">> ELSE <<"violation", "unbounded-answered-" \o e.ans>>)
   ELSE IF e.ans # "value" THEN <<"violation", "optimum-exists-answered-" \o e.ans>>
   ELSE IF ~e.ok THEN <<"unjudged", "snap">>
